@@ -15,6 +15,10 @@ fn main() {
         .map(|l| if l.contains("cfg(") { l } else { l.replace("::std::process::exit", "verif_std::process::exit").replace("std::process::exit", "verif_std::process::exit").replace("use std::process;", "use verif_std::process;") })
         .collect::<Vec<_>>()
         .join("\n");
+    println!("cargo:rustc-check-cfg=cfg(verif_has_keep_running)");
+    if text.contains("static KEEP_RUNNING") {
+        println!("cargo:rustc-cfg=verif_has_keep_running");
+    }
     let dst = Path::new(&env::var("OUT_DIR").unwrap()).join("server_bin.rs");
     fs::write(dst, out).unwrap();
 }
